@@ -167,6 +167,7 @@ const (
 	opTrimAllC0
 	opTrimAllC1
 	opTrimAllC2
+	opTrunc7 // far back: past whole read-only segments that are no longer in the segment cache
 	nOps
 )
 
@@ -174,7 +175,7 @@ var opNames = []string{"Append(small)", "Append(large)", "AppendAsync(small)", "
 	"TruncateLog(-1)", "TruncateLog(appended)", "TruncateLog(appended-1)", "TruncateLog(appended-2)", "TruncateLog(appended-3)",
 	"Clear", "Close+Reopen", "Append@5-on-empty",
 	"Trim(cutoff=ts(first+1),commit=first)", "Trim(cutoff=ts(first+1),commit=first+1)", "Trim(cutoff=ts(first+1),commit=last)",
-	"Trim(cutoff=all,commit=first)", "Trim(cutoff=all,commit=first+1)", "Trim(cutoff=all,commit=last)"}
+	"Trim(cutoff=all,commit=first)", "Trim(cutoff=all,commit=first+1)", "Trim(cutoff=all,commit=last)", "TruncateLog(appended-7)"}
 
 func viol(key, msg string) *ev.Violation { return &ev.Violation{Key: key, Message: msg} }
 
@@ -247,8 +248,11 @@ func (in *inst) Step(op int) (bool, *ev.Violation) {
 		}
 		in.entries = nil
 		in.synced, in.first, in.lowDisk = -1, -1, -1
-	case opTrunc0, opTrunc1, opTrunc2, opTrunc3:
+	case opTrunc0, opTrunc1, opTrunc2, opTrunc3, opTrunc7:
 		k := int64(op - opTrunc0)
+		if op == opTrunc7 {
+			k = 7
+		}
 		if len(in.entries) == 0 {
 			return false, nil
 		}
